@@ -67,9 +67,10 @@ def mk_event(ts, kind, who=None):
     if who is not None:
         # events of a small pool of sessions: the same session may have its plug-in and its unplug pending at one
         # timestamp, and session order is the reverse of station order (ordering must not look at either)
-        ev = EV(ts, ts + 3, 5.0, "PS-%d" % (1 - who), "sess-%d" % who, Battery(10, 0, 7))
+        # the EV's own arrival / departure (7, 9) are NOT the event's timestamp: the queue orders by the latter alone
+        ev = EV(7, 9, 5.0, "PS-%d" % (1 - who), "sess-%d" % who, Battery(10, 0, 7))
         return PluginEvent(ts, ev) if kind == "P" else UnplugEvent(ts, ev)
-    ev = EV(ts, ts + 3, 5.0, "PS-%d" % (_uid[0] % 3), "sess-%d" % _uid[0], Battery(10, 0, 7))
+    ev = EV(ts + (_uid[0] % 2), ts + 3, 5.0, "PS-%d" % (_uid[0] % 3), "sess-%d" % _uid[0], Battery(10, 0, 7))
     return PluginEvent(ts, ev) if kind == "P" else UnplugEvent(ts, ev)
 
 
@@ -120,6 +121,9 @@ def step(st: State, op, viol):
     try:
         if name == "add":
             e = mk_event(op[1], op[2], op[3] if len(op) > 3 else None)
+            if e.timestamp != op[1]:
+                viol.append(("event:timestamp-not-as-given", "an event created with timestamp %r carries timestamp %r" % (op[1], e.timestamp), e.timestamp, op[1]))
+                return None
             for q in qs:
                 q.add_event(e)
             s.model.append(key(e))
